@@ -260,6 +260,142 @@ func main() {
 		die("enable loop never installs availableDecoders[dec]")
 	}
 
+	// 2b. the rest of httpContentDecompressor: exactly
+	//   errHandler := …; if eh != nil {…}; enabled := map[…]…{}; for … range enableDecoders {…};
+	//   d := &decompressor{…, decoders: enabled}; for key, dec := range decoders { d.decoders[key] = dec }; return d
+	if len(hd.Body.List) != 7 {
+		die("httpContentDecompressor no longer has 7 statements")
+	}
+	if as, ok := hd.Body.List[2].(*ast.AssignStmt); !ok || len(as.Lhs) != 1 || len(as.Rhs) != 1 {
+		die("httpContentDecompressor: statement 3 is not `enabled := map…{}`")
+	} else {
+		id, ok1 := as.Lhs[0].(*ast.Ident)
+		lit, ok2 := as.Rhs[0].(*ast.CompositeLit)
+		if !ok1 || !ok2 || id.Name != "enabled" || as.Tok != token.DEFINE || len(lit.Elts) != 0 {
+			die("httpContentDecompressor: `enabled` is not initialised with an empty map literal")
+		}
+		if _, ok := lit.Type.(*ast.MapType); !ok {
+			die("httpContentDecompressor: `enabled` is not a fresh map")
+		}
+	}
+	if hd.Body.List[3] != ast.Stmt(loop) {
+		die("httpContentDecompressor: the enable loop is not statement 4")
+	}
+	if as, ok := hd.Body.List[4].(*ast.AssignStmt); !ok || len(as.Rhs) != 1 {
+		die("httpContentDecompressor: statement 5 is not `d := &decompressor{…}`")
+	} else {
+		ue, ok := as.Rhs[0].(*ast.UnaryExpr)
+		if !ok || ue.Op != token.AND {
+			die("httpContentDecompressor: statement 5 is not `d := &decompressor{…}`")
+		}
+		lit, ok := ue.X.(*ast.CompositeLit)
+		if !ok {
+			die("httpContentDecompressor: statement 5 is not a composite literal")
+		}
+		okDec := false
+		for _, e := range lit.Elts {
+			kv, ok := e.(*ast.KeyValueExpr)
+			if !ok {
+				die("httpContentDecompressor: unkeyed decompressor literal")
+			}
+			if k, ok := kv.Key.(*ast.Ident); ok && k.Name == "decoders" {
+				if v, ok := kv.Value.(*ast.Ident); ok && v.Name == "enabled" {
+					okDec = true
+				}
+			}
+		}
+		if !okDec {
+			die("httpContentDecompressor: decompressor.decoders is not the freshly built `enabled` map")
+		}
+	}
+	if rs, ok := hd.Body.List[5].(*ast.RangeStmt); !ok {
+		die("httpContentDecompressor: statement 6 is not the custom-decoder loop")
+	} else {
+		x, ok1 := rs.X.(*ast.Ident)
+		k, ok2 := rs.Key.(*ast.Ident)
+		v, ok3 := rs.Value.(*ast.Ident)
+		if !ok1 || !ok2 || !ok3 || x.Name != "decoders" || len(rs.Body.List) != 1 {
+			die("httpContentDecompressor: custom-decoder loop has an unexpected shape")
+		}
+		as, ok := rs.Body.List[0].(*ast.AssignStmt)
+		if !ok || len(as.Lhs) != 1 || len(as.Rhs) != 1 || as.Tok != token.ASSIGN {
+			die("httpContentDecompressor: custom-decoder loop body is not one assignment")
+		}
+		li, ok := as.Lhs[0].(*ast.IndexExpr)
+		if !ok {
+			die("httpContentDecompressor: custom-decoder loop does not write a map entry")
+		}
+		sel, ok1 := li.X.(*ast.SelectorExpr)
+		ki, ok2 := li.Index.(*ast.Ident)
+		ri, ok3 := as.Rhs[0].(*ast.Ident)
+		if !ok1 || !ok2 || !ok3 || sel.Sel.Name != "decoders" || ki.Name != k.Name || ri.Name != v.Name {
+			die("httpContentDecompressor: custom-decoder loop is not `d.decoders[key] = dec`")
+		}
+		if base, ok := sel.X.(*ast.Ident); !ok || base.Name != "d" {
+			die("httpContentDecompressor: custom decoders are not written into d.decoders")
+		}
+	}
+	if _, ok := hd.Body.List[6].(*ast.ReturnStmt); !ok {
+		die("httpContentDecompressor: last statement is not a return")
+	}
+
+	// 2c. package-level state: `availableDecoders` may only be READ (indexed on a right-hand side, or ranged over)
+	// anywhere in the package; a write, delete, alias or hand-off makes one server's options visible to others.
+	onlyRead := true
+	entries, err := os.ReadDir(filepath.Join(repo, "config/confighttp"))
+	if err != nil {
+		die("%v", err)
+	}
+	for _, ent := range entries {
+		nm := ent.Name()
+		if ent.IsDir() || !strings.HasSuffix(nm, ".go") || strings.HasSuffix(nm, "_test.go") {
+			continue
+		}
+		f := parse(filepath.Join(repo, "config/confighttp", nm))
+		allowed := map[*ast.Ident]bool{}
+		ast.Inspect(f, func(n ast.Node) bool {
+			switch x := n.(type) {
+			case *ast.ValueSpec:
+				for _, id := range x.Names {
+					allowed[id] = true
+				}
+			case *ast.AssignStmt:
+				// reads on the right-hand side only
+				for _, r := range x.Rhs {
+					ast.Inspect(r, func(n ast.Node) bool {
+						if ix, ok := n.(*ast.IndexExpr); ok {
+							if id, ok := ix.X.(*ast.Ident); ok {
+								allowed[id] = true
+							}
+						}
+						return true
+					})
+				}
+			case *ast.IfStmt:
+				if as, ok := x.Init.(*ast.AssignStmt); ok {
+					for _, r := range as.Rhs {
+						if ix, ok := r.(*ast.IndexExpr); ok {
+							if id, ok := ix.X.(*ast.Ident); ok {
+								allowed[id] = true
+							}
+						}
+					}
+				}
+			case *ast.RangeStmt:
+				if id, ok := x.X.(*ast.Ident); ok {
+					allowed[id] = true
+				}
+			}
+			return true
+		})
+		ast.Inspect(f, func(n ast.Node) bool {
+			if id, ok := n.(*ast.Ident); ok && id.Name == "availableDecoders" && !allowed[id] {
+				onlyRead = false
+			}
+			return true
+		})
+	}
+
 	// 3. decompressor.ServeHTTP: errHandler(..., http.StatusXxx) + return; MaxBytesReader(w, newBody, d.maxRequestBodySize)
 	sh := funcDecl(cf, "decompressor", "ServeHTTP")
 	rejectConst := ""
@@ -541,6 +677,8 @@ func main() {
 	}
 	b.WriteString("]\n\n/-- does the enable loop store `availableDecoders[dec]` unconditionally (a nil func for an unknown name)? -/\n")
 	fmt.Fprintf(&b, "def installsNilForUnknown : Bool := %v\n\n", installsNil)
+	b.WriteString("/-- is the package-level `availableDecoders` only ever read (never written, deleted from, aliased or handed to other code)? -/\n")
+	fmt.Fprintf(&b, "def availableDecodersOnlyRead : Bool := %v\n\n", onlyRead)
 	b.WriteString("/-- status passed to `errHandler` by `decompressor.ServeHTTP` -/\n")
 	fmt.Fprintf(&b, "def rejectStatus : Nat := %d\n\n", rejectStatus)
 	b.WriteString("/-- `ToServer`: `maxRequestBodySizeInterceptor` wraps (runs before) `httpContentDecompressor` -/\n")
